@@ -96,8 +96,25 @@ def guess_arg(name, dim, variant=0):
     return pos
 
 
-def instantiate(cls, dest, sources, dim, variant=0):
-    """-> (object, None) or (None, reason)."""
+def has_alt(cls):
+    """Does the constructor have options the `alt` instantiation changes?"""
+    try:
+        sig = inspect.signature(cls.__init__)
+    except (TypeError, ValueError):
+        return False
+    for pname, p in list(sig.parameters.items())[1:]:
+        if pname in ('dest', 'sources', 'dim'):
+            continue
+        if type(p.default) is bool or (type(p.default) is float and
+                                       p.default == 0.0):
+            return True
+    return False
+
+
+def instantiate(cls, dest, sources, dim, variant=0, alt=False):
+    """-> (object, None) or (None, reason).  alt: the other value of every
+    boolean option and 0.375 for every float option that defaults to 0.0
+    (options that switch whole terms of the formula on)."""
     sig = inspect.signature(cls.__init__)
     kw = {}
     for pname, p in list(sig.parameters.items())[1:]:
@@ -110,6 +127,10 @@ def instantiate(cls, dest, sources, dim, variant=0):
         elif pname == 'dim':
             kw[pname] = dim
         elif p.default is not inspect.Parameter.empty:
+            if alt and type(p.default) is bool:
+                kw[pname] = not p.default
+            elif alt and type(p.default) is float and p.default == 0.0:
+                kw[pname] = 0.375
             continue
         else:
             kw[pname] = guess_arg(pname, dim, variant)
